@@ -3,7 +3,8 @@
 
 State mirrors the private members one to one.  Every public method of the C++ class is one critical
 section: `guard` (the predicate of its `wait`, `true` if it does not wait) and a body.  Objects are
-abstract ids (`Nat`).  32-bit wrap of `tellg`/`tellp` after 2^32 objects is outside the model.
+abstract ids (`Nat`).  Counters are unbounded here; the machine with the `uint32_t` counters of the code is `Blf/Queue32.lean`,
+proved equal to this one for every history below 2^32 objects (`run32_eq_run`); the driver executes that one.
 -/
 namespace Blf.Queue
 
